@@ -41,6 +41,10 @@ def echo(ids: List[int]) -> bool:
             node.force_state("Open")
             node.assoc.state_is_active = True
             node.transport.events = [("busy", 1)]
+        if P["start"] == "Closing":              # local stop requested, DPR sent, DPA not yet received: crossing requests
+            node.force_state("Closing")
+            node.assoc.state_is_active = False
+            node.transport.events = [("busy", 1)]
         if P.get("backlog"):
             S.SEND_BUFFER_MAXIMUM_SIZE = len(build("app_req").dump()) + 8     # exactly one queued message fits per flush
                                                                                # (behaviour is parametric in the constant)
@@ -80,6 +84,17 @@ def echo(ids: List[int]) -> bool:
             node.flush()                          # transport thread runs between ticks
     reached()
     if REPLAY: note(requests=base_reqs, answers=[(h["command"], h["hbh"], h["e2e"]) for h, _ in got])
+    if P.get("lenient"):
+        # states in which a request may legitimately go unanswered (Closing): whatever base answer IS emitted must still answer
+        # exactly one received request - match the answers, in order, against a subsequence of the requests
+        pool, matched = list(base_reqs), []
+        for h, avps in got:
+            while pool and not (pool[0][0] == h["command"] and pool[0][1] == h["hbh"] and pool[0][2] == h["e2e"]):
+                pool.pop(0)
+            if not pool:
+                return False
+            matched.append(pool.pop(0))
+        base_reqs = matched
     if len(got) != len(base_reqs):
         return False
     ok = True
@@ -148,6 +163,12 @@ def queries(tier, seed):
     for role, start, seq in seqs:
         qs.append(Q(f"echo/{role}/{start}/{'-'.join(s.split('_')[0] for s in seq)}", "echo", {"role": role, "start": start, "seq": seq}, cto=t, pto=t,
                     what=f"{role} from {start}: back-to-back {seq}, all identifiers symbolic"))
+    closing = [("CLIENT", ["dpr_ok"]), ("SERVER", ["dwr_ok", "dpr_ok"])] if tier == "quick" else \
+        [("CLIENT", ["dpr_ok"]), ("SERVER", ["dwr_ok", "dpr_ok"]), ("SERVER", ["dpr_ok", "dpr_ok"]), ("CLIENT", ["cer_ok", "dpr_ok", "dwr_ok"])]
+    for role, seq in closing:
+        qs.append(Q(f"echo/{role}/Closing/{'-'.join(s.split('_')[0] for s in seq)}", "echo", {"role": role, "start": "Closing", "seq": seq, "lenient": True}, cto=t, pto=t,
+                    what=f"{role} in Closing (own DPR sent, crossing requests {seq} arrive): requests may go unanswered there, but every base answer "
+                         f"emitted must carry the identifiers of one received request"))
     for role, seq, n in ((("SERVER", ["dwr_ok", "dwr_ok"], 6),) if tier == "quick" else (("SERVER", ["dwr_ok", "dwr_ok"], 6), ("CLIENT", ["dwr_ok", "cer_ok", "dwr_ok"], 8), ("SERVER", ["dwr_ok", "dwr_ok", "dwr_ok"], 12))):
         qs.append(Q(f"echo/{role}/backlog{n}/{'-'.join(s.split('_')[0] for s in seq)}", "echo", {"role": role, "start": "Open", "seq": seq, "backlog": n}, cto=t, pto=t,
                     what=f"{role} Open with {n} queued outbound messages exceeding the send buffer (send-buffer constant patched so that one message fits per flush): back-to-back {seq}"))
@@ -156,7 +177,7 @@ def queries(tier, seed):
 
 
 BOUNDS = ["sequences of 1-3 base requests (CER, DWR, DPR) back-to-back in the inbound queue, optionally interleaved with application traffic or behind an "
-          "outbound backlog; every Hop-by-Hop / End-to-End value (equal and distinct values arise as cases)", "states Closed (server) and Open, both roles; one reconnect"]
+          "outbound backlog; every Hop-by-Hop / End-to-End value (equal and distinct values arise as cases)", "states Closed (server), Open and Closing (crossing requests after a local stop), both roles; one reconnect"]
 OUTSIDE = ["identifiers of locally generated requests (dict keys, concrete)", "sequences longer than 3", "real sockets and timing (stand-in transport; the transport thread body runs "
            "between ticks and while the state machine sleeps / waits for write mode)"]
 ASSUMPTIONS = ["reference decoder", "SEND_BUFFER_MAXIMUM_SIZE patched to one message + 8 bytes in the backlog queries (behaviour is parametric in the constant)"]
